@@ -142,7 +142,11 @@ func (c *clause) compileHeadArg(a Term, env *Env) {
 		}
 		c.bytecode = append(c.bytecode, instruction{opcode: opPop})
 	case *partial:
-		prefix := a.Compound.(list)
+		var prefix []Term // The prefix isn't necessarily a list literal. e.g. a result of append/3 with a string.
+		iter := ListIterator{List: a.Compound}
+		for iter.Next() {
+			prefix = append(prefix, iter.Current())
+		}
 		c.bytecode = append(c.bytecode, instruction{opcode: opGetPartial, operand: Integer(len(prefix))})
 		c.compileHeadArg(*a.tail, env)
 		for _, arg := range prefix {
